@@ -83,13 +83,19 @@ AllShapes == Shapes(1) \cup Shapes(2) \cup Shapes(3)
 AxShapes == UNION {{SetAt(s, 1, e) : e \in 1..MaxAxExt} : s \in AllShapes}
 MinRank(shapes) == CHOOSE r \in 1..3 : (\E i \in 1..Len(shapes) : Len(shapes[i]) = r)
                                       /\ \A i \in 1..Len(shapes) : Len(shapes[i]) >= r
+(* pytrees for the split operations: one leaf of any shape, optionally followed by leaves of
+   other ranks / extents (heterogeneous trees) *)
+Partners == {<<MaxAxExt>>, <<1, 2>>, <<2, 2, 1>>}
+SplitTrees == {<<s>> : s \in AxShapes}
+              \cup (IF MaxSplitLeaves >= 2 THEN {<<s, t>> : s \in AxShapes, t \in Partners} ELSE {})
+              \cup (IF MaxSplitLeaves >= 3 THEN {<<t, s, u>> : s \in AxShapes, t \in Partners, u \in Partners} ELSE {})
 SplitCfgs ==
-  {c \in [op : {"split"}, axis : -1..1, shapes : SeqsUpTo(AxShapes, 1, MaxSplitLeaves),
+  {c \in [op : {"split"}, axis : -1..1, shapes : SplitTrees,
           arg : 0..MaxAxExt + 1, same : BOOLEAN] :
      /\ c.axis < MinRank(c.shapes)
      /\ ((c.axis < 0 \/ c.same) => c.arg = 1)}
 SplitAxisCfgs ==
-  {c \in [op : {"splitaxis"}, axis : -2..1, shapes : SeqsUpTo(AxShapes, 1, MaxSplitLeaves),
+  {c \in [op : {"splitaxis"}, axis : -2..1, shapes : SplitTrees,
           arg : {0}, keep : BOOLEAN] :
      ValidAxis(c.axis, MinRank(c.shapes))}
 
